@@ -369,7 +369,7 @@ class _Custom(Filter):
     async def __call__(self, new_value: Any) -> Any:
         """Set a new value for the callback."""
         if self._filter_fn(new_value):
-            await self._callback(new_value)
+            return await self._callback(new_value)
 
 
 def custom(callback: Callback, filter_fn: Callable[[Any], bool]) -> _Custom:
